@@ -40,8 +40,12 @@ let r2_s pkt (r : rres2) old expect : string =
   | R2 r -> rres_s pkt r old expect
   | RUnmodelled -> "handled=UNMODELLED"
 
-let handle (pl : string) : string =
+let rec handle (pl : string) : string =
   match split pl with
+  | ["encd"; cap; dirty; fr] -> handle (String.concat " " ["enc"; cap; fr]) ^ (if dirty = "-" then "" else ":dirty")
+  | ["snd"; u; hu; old; seq; name; dirty; fr] -> handle (String.concat " " ["sn"; u; hu; old; seq; name; fr]) ^ ":dirty"
+  | ["an2"; ipc; order; net; sub; uni; port; huni; old; pre; fr] ->
+    handle (String.concat " " ["an"; net; sub; uni; port; huni; old; pre; fr]) ^ ":rx-inputs" ^ ipc ^ (if ios order / 6 mod 2 = 1 then ":started-first" else ":configured-first")
   | ["enc"; cap; fr] ->
     let f = bytes_of_hex fr in
     let cls = frame_class (List.map int_of_n f) in
